@@ -64,8 +64,6 @@ Fixpoint rle (l : list Z) : list (Z * Z) :=
               end
   end.
 
-Definition bsum (l : list Z) : Z := fold_left (fun a b => (a * 31 + b) mod 4294967291) l 7.
-
 (* ------------------------------------------------------------------ UTF-8 (bytes.decode(), strict) *)
 Definition cont (b : Z) : bool := (128 <=? b) && (b <=? 191).
 Definition inr (lo hi b : Z) : bool := (lo <=? b) && (b <=? hi).
@@ -357,11 +355,11 @@ End Crypto.
 (* what decrypt asks the primitives (the call plan executed by the correspondence) *)
 Record queries := mk_q {
   q_sha_in : list Z; q_hash : aval; q_iv : option (list Z); q_keyok : bool;
-  q_aad : list (Z * Z); q_ct_len : Z; q_ct_sum : Z; q_tag : list Z }.
+  q_aad : list Z; q_ct_len : Z; q_tag : list Z }.
 
 Definition decrypt_queries (e : envelope) (key aad : list Z) : queries :=
   mk_q (sha_input e key) (e_key_hash e) (iv_of e) (key_len_ok key)
-       (rle (aad_of e aad)) (len (e_data e)) (bsum (e_data e)) (e_digest e).
+       (aad_of e aad) (len (e_data e)) (e_digest e).
 
 (* ------------------------------------------------------------------ the writer (specification side) *)
 Definition CF_MAGIC := Gen.Consts.envelope_FOOTER_CRYPTO_MAGIC.
@@ -415,3 +413,25 @@ Section Cli.
     | Fuel => (Fuel, Absent)
     end.
 End Cli.
+
+(* ------------------------------------------------------------------ views printed by the correspondence
+   (printing thousands of numbers is slow, so a byte string that is expected to equal a known one is
+   printed as [Same] and in full (run-length coded) only when it differs) *)
+Inductive cmpview := Same | Differs (l : list (Z * Z)).
+Definition cmp_view (got expected : list Z) : cmpview := if beq got expected then Same else Differs (rle got).
+
+Definition attr_view (a : attr) := (a_name a, a_type a, a_flag a, a_val a).
+Definition res_map {A B} (f : A -> B) (r : res A) : res B :=
+  match r with Ok a => Ok (f a) | Err => Err | Fuel => Fuel end.
+
+Definition env_report (file key aad : list Z) :=
+  res_map (fun e =>
+    let q := decrypt_queries e key aad in
+    (e_version e,
+     (q_sha_in q, q_hash q, q_iv q, q_keyok q),
+     (cmp_view (q_aad q) (takez file BLOCK ++ aad), q_ct_len q, q_tag q),
+     (map attr_view (e_attrs e), e_size e),
+     res_map (fun p => cmp_view p (takez file BLOCK)) (pack_header (e_attrs e) (e_version e)))) (env_open file).
+
+Definition out_view (o : outfile) : res (list (Z * Z)) :=
+  match o with Absent => Err | Written b => Ok (rle b) end.
